@@ -116,6 +116,7 @@ package broker
 
 //@ func (c *GroupCoordinator) Heartbeat
 //@   opaque_strings
+//@   iface_calls_only [C13.heartbeat_never_commits_offsets] github.com/KafScale/platform/pkg/metadata.Store: FetchConsumerGroup, PutConsumerGroup, DeleteConsumerGroup
 //@   requires coordOK(c)
 //@   ensures [C13.heartbeat_fenced] !current(c, req.Group, req.MemberID, req.Generation) ==> result.ErrorCode != protocol.NONE
 //@   ensures [C13.heartbeat_unknown_member] has(c.groups, req.Group) && !has(c.groups[req.Group].members, req.MemberID) ==> result.ErrorCode == protocol.UNKNOWN_MEMBER_ID
@@ -125,11 +126,13 @@ package broker
 //@   ensures [C13.heartbeat_keeps_generation] keepsField("groupState", "generationID") && (forall g string :: old(has(c.groups, g)) ==> has(c.groups, g) && mapval(c.groups, g) == old(mapval(c.groups, g)))
 //@   ensures coordOK(c)
 
-// A generation never decreases (the int32 counter wraps after 2^31-1 rebalances of one group: see notes).
-//@ spec func genNotLower(before int32, after int32) bool = after >= before || before == 2147483647
+// One call changes a generation by at most one step: it stays, or becomes the next one. (At 2147483647 the int32
+// counter wraps: that case is excluded here and documented with a witness test.)
+//@ spec func genStep(before int32, after int32) bool = after == before || after == before + 1 || before == 2147483647
 
 //@ func (c *GroupCoordinator) SyncGroup
 //@   opaque_strings
+//@   iface_calls_only [C13.sync_never_commits_offsets] github.com/KafScale/platform/pkg/metadata.Store: FetchConsumerGroup, PutConsumerGroup, DeleteConsumerGroup, Metadata
 //@   merge_branches
 //@   opaque_field_addrs
 //@   requires coordOK(c)
@@ -189,4 +192,27 @@ package broker
 //@   ensures [C14.join_member_list_only_for_leader] err == nil && len(result0.Members) != 0 ==> result0.MemberID == result0.LeaderID
 //@   ensures [C14.join_reports_member_and_generation] err == nil ==> has(c.groups[req.Group].members, result0.MemberID) && result0.Generation == c.groups[req.Group].generationID
 //@   ensures [C14.join_keeps_group_invariant] err == nil ==> groupInv(c.groups[req.Group])
-//@   ensures [C13.join_generation_not_lower] err == nil && old(has(c.groups, req.Group)) ==> c.groups[req.Group] == old(c.groups[req.Group]) && genNotLower(old(c.groups[req.Group].generationID), c.groups[req.Group].generationID)
+//@   ensures [C13.join_generation_step] err == nil && old(has(c.groups, req.Group)) ==> c.groups[req.Group] == old(c.groups[req.Group]) && genStep(old(c.groups[req.Group].generationID), c.groups[req.Group].generationID)
+
+//@ func (c *GroupCoordinator) LeaveGroup
+//@   opaque_strings
+//@   merge_branches
+//@   requires coordOK(c)
+//@   requires has(c.groups, req.Group) ==> groupInv(c.groups[req.Group])
+//@   ensures [C13.leave_generation_step] old(has(c.groups, req.Group)) && has(c.groups, req.Group) ==> c.groups[req.Group] == old(c.groups[req.Group]) && genStep(old(c.groups[req.Group].generationID), c.groups[req.Group].generationID)
+//@   ensures [C14.leave_keeps_group_invariant] has(c.groups, req.Group) ==> groupInv(c.groups[req.Group])
+//@   ensures [C14.leave_removes_member] result.ErrorCode == protocol.NONE ==> !has(c.groups, req.Group) || !has(c.groups[req.Group].members, req.MemberID)
+
+// Distinct group ids are served by distinct group records (every record is allocated by ensureGroup /
+// restoreGroupState for one id; assumed at entry of cleanupGroups, kept by it).
+//@ spec func distinctGroups(c *GroupCoordinator) bool = forall g1 string, g2 string :: has(c.groups, g1) && has(c.groups, g2) && g1 != g2 ==> mapval(c.groups, g1) != mapval(c.groups, g2)
+
+//@ func (c *GroupCoordinator) cleanupGroups
+//@   opaque_strings
+//@   merge_branches
+//@   requires coordOK(c) && distinctGroups(c)
+//@   ensures [C13.cleanup_generation_step] forall g string :: has(c.groups, g) ==> old(has(c.groups, g)) && mapval(c.groups, g) == old(mapval(c.groups, g)) && genStep(old(mapval(c.groups, g).generationID), mapval(c.groups, g).generationID)
+//@   ensures coordOK(c) && distinctGroups(c)
+//@   loop 1 invariant forall g string :: has(c.groups, g) ==> old(has(c.groups, g)) && mapval(c.groups, g) == old(mapval(c.groups, g))
+//@   loop 1 invariant coordOK(c) && distinctGroups(c)
+//@   loop 1 invariant forall g string :: has(c.groups, g) ==> ite(seen(1, g), genStep(old(mapval(c.groups, g).generationID), mapval(c.groups, g).generationID), mapval(c.groups, g).generationID == old(mapval(c.groups, g).generationID))
